@@ -201,5 +201,5 @@ def fimo_strategy(draw):
 
 def subchecks(tier):
     return [Sub("pvalue_table", table_case, strategy=lambda: strategy(30, 12) if tier == "quick" else strategy(30, 30),
-                n_quick=800, n_thorough=30000, shards_quick=4),
-            Sub("fimo_pvalue_column", fimo_pvalue_case, strategy=fimo_strategy, n_quick=300, n_thorough=6000, shards_quick=2)]
+                n_quick=800, n_thorough=90000, shards_quick=4),
+            Sub("fimo_pvalue_column", fimo_pvalue_case, strategy=fimo_strategy, n_quick=300, n_thorough=18000, shards_quick=2)]
